@@ -1,6 +1,8 @@
 package checks
 
 import (
+	"crypto/sha1"
+	"encoding/hex"
 	"errors"
 	"fmt"
 	"os"
@@ -9,6 +11,7 @@ import (
 	"strings"
 
 	"github.com/AsaiYusuke/jsonpath"
+	"verif/internal/gen"
 	"verif/internal/harness"
 	"verif/internal/hooks"
 	"verif/internal/lib"
@@ -22,6 +25,10 @@ var histPaths = []string{
 	`$[99999999999999999999]`, `$[0:1:9223372036854775808]`, `$[?(@.a == 1e400)]`, `$[?(@.a =~ /(/)]`, "$['\x01']", `$.nofn()`, `$.a.nofn().f()`, `$[(1+1)]`, `$[?(@.* == 1)]`,
 	`$[?(@..a == 1)]`, `$[?(@.a == @.b)]`, `$.a xx`, ``, `$[?(@.a == 1)`, `$[`, `$.f().`, `$[?(@.f().nofn() == 1)]`, `$[?(@.a == 1 && @.b == 1e999)]`, `$..[?(@.nofn())]`, `$['a',`, `$[?(@.a=~/a/ || @.nofn())]`,
 	`$[?(@[0:1] > 1)]`, `$[?($..a =~ /a/)]`,
+	// paths without a leading $ (bracket / name / wildcard first), nested filters, filters inside filter operands
+	`[?(@.a)]`, `[?(@.b)].b`, `[0]`, `['a','b']`, `[*].a`, `*`, `[0:2]`, `a[?(@.c)]`, `[?(@.a == 1)].a`, `$[?(@[?(@.c)])]`, `$.b[?(@[?(@.c > 1)].c == 3)]`,
+	`$[?(@.a.f() == 'x' && @[?(@.nofn())])]`, `$[?(@[?(@.a == 1e999)])]`, `$[?(@.a[(1)])]`, `$.x[?(@.a.nofn())]`, `$[?(@[99999999999999999999])]`, `$[?($[?(@.nofn())])]`, `[?(@.nofn())]`,
+	`$[?(@.a == 1 || @.b.g() == 2)]`, `$[?(!@.a)]`, `$..[?(@.c)]`, "$[?(@.a == 'x\x00')]", `$.a.g().g()`, `$[?(@.g().f().g() == 1)]`,
 }
 
 var histDocs = []string{`{"a":1,"b":[1,2,{"c":3}]}`, `[{"a":1},{"a":2,"b":1},[1,2,3]]`, `{"a":{"c":1},"b":{"c":2}}`, `[[1,2],[3]]`}
@@ -91,9 +98,11 @@ func behaviour(f lib.Func) string {
 
 // parseOutcome: the outcome of Parse(histPaths[pi], config ci): the error or the behaviour of the function.
 // mutate: after Parse, modify the Config (other functions under the same names, accessor mode) before using the function.
-func parseOutcome(pi, ci int, mutate bool) string {
+func parseOutcome(pi, ci int, mutate bool) string { return parseOutcomeText(histPaths[pi], ci, mutate) }
+
+func parseOutcomeText(text string, ci int, mutate bool) string {
 	cfgs := histConfigs()[ci]()
-	po := lib.Parse(histPaths[pi], cfgs...)
+	po := lib.Parse(text, cfgs...)
 	if po.Panic != nil {
 		return fmt.Sprintf("PANIC(%v)", po.Panic)
 	}
@@ -118,16 +127,51 @@ func parseOutcome(pi, ci int, mutate bool) string {
 // FreshOutcomeMain is `vcheck fresh-outcome <pi> <ci>`: the call made first in a fresh process.
 func FreshOutcomeMain(args []string) int {
 	var pi, ci int
-	fmt.Sscanf(args[0], "%d", &pi)
 	fmt.Sscanf(args[1], "%d", &ci)
 	hooksOn()
+	if strings.HasPrefix(args[0], "hex:") {
+		b, err := hex.DecodeString(args[0][4:])
+		if err != nil {
+			return 2
+		}
+		fmt.Print(parseOutcomeText(string(b), ci, false))
+		return 0
+	}
+	fmt.Sscanf(args[0], "%d", &pi)
 	fmt.Print(parseOutcome(pi, ci, false))
 	return 0
 }
 
+// getText: fresh-process outcome of Parse(text, cfg ci) for a path outside the fixed list.
+func (fc *freshCache) getText(c *harness.Ctx, text string, ci int) (string, bool) {
+	sum := sha1.Sum([]byte(text))
+	key := fmt.Sprintf("t%x-%d", sum[:10], ci)
+	if v, ok := fc.memText[key]; ok {
+		return v, v != "CRASH"
+	}
+	path := filepath.Join(fc.dir, key+".txt")
+	if b, err := os.ReadFile(path); err == nil {
+		fc.memText[key] = string(b)
+		return string(b), true
+	}
+	out, err := exec.Command(os.Args[0], "fresh-outcome", "hex:"+hex.EncodeToString([]byte(text)), fmt.Sprint(ci)).Output()
+	if err != nil {
+		c.Violation(fmt.Sprintf("fresh-crash path=%q cfg=%d", text, ci), "Parse (or the returned function on the probe documents) crashed a fresh process",
+			map[string]interface{}{"path": text, "config": ci, "error": err.Error()})
+		fc.memText[key] = "CRASH"
+		return "CRASH", false
+	}
+	tmp := fmt.Sprintf("%s.%d.tmp", path, os.Getpid())
+	os.WriteFile(tmp, out, 0o644)
+	os.Rename(tmp, path)
+	fc.memText[key] = string(out)
+	return string(out), true
+}
+
 type freshCache struct {
-	dir string
-	mem map[[2]int]string
+	dir     string
+	mem     map[[2]int]string
+	memText map[string]string
 }
 
 func (fc *freshCache) get(c *harness.Ctx, pi, ci int) (string, bool) {
@@ -167,7 +211,7 @@ func init() {
 			"a succeeding one, or two different configurations; distinct = distinct histories", len(histPaths)),
 		Assumptions: []string{"the outcome of the first call in a fresh process is the history-free meaning of Parse(path, config)"},
 		Plan: func(tier string, seed int64) *harness.Plan {
-			fc := &freshCache{mem: map[[2]int]string{}}
+			fc := &freshCache{mem: map[[2]int]string{}, memText: map[string]string{}}
 			return &harness.Plan{
 				N: size(tier, 8000, 150000),
 				Setup: func(c *harness.Ctx) {
@@ -178,7 +222,7 @@ func init() {
 				},
 				Run:      func(c *harness.Ctx, k int) { runC19(c, fc) },
 				Finish:   reportHooks,
-				Required: []string{"history:fail-then-success", "history:config-switch", "history:config-mutated", "outcome:error", "outcome:function", "residue:clean"},
+				Required: []string{"history:generated-path", "history:fail-then-success", "history:config-switch", "history:config-mutated", "outcome:error", "outcome:function", "residue:clean"},
 			}
 		},
 	})
@@ -188,12 +232,32 @@ func runC19(c *harness.Ctx, fc *freshCache) {
 	r := c.Rand()
 	ncfg := len(histConfigs())
 	n := 2 + r.Intn(9)
-	type call struct{ pi, ci int }
+	type call struct {
+		pi, ci int
+		text   string // non-empty: a path outside the fixed list (pi = -1)
+	}
+	// two generated paths per history: a random AST in a random spelling, possibly mutated into a failing one
+	g := gen.New(r)
+	g.Funcs, g.Aggrs = []string{"f", "h"}, []string{"g"}
+	var extra []string
+	for len(extra) < 2 {
+		t, _ := g.Path(4, 2).Render(gen.RandomSpelling(r))
+		if r.Intn(2) == 0 {
+			t = gen.Mutate(r, t, 1+r.Intn(2))
+		}
+		if !strings.ContainsRune(t, 0) && len(t) < 200 {
+			extra = append(extra, t)
+		}
+	}
 	calls := make([]call, n)
 	for i := range calls {
-		calls[i] = call{r.Intn(len(histPaths)), r.Intn(ncfg)}
+		calls[i] = call{pi: r.Intn(len(histPaths)), ci: r.Intn(ncfg)}
+		if r.Intn(4) == 0 {
+			calls[i].pi, calls[i].text = -1, extra[r.Intn(len(extra))]
+			c.Cover("history:generated-path")
+		}
 		if i > 0 && r.Intn(3) == 0 {
-			calls[i].pi = calls[i-1].pi // same path, other config: where a leak would show
+			calls[i].pi, calls[i].text = calls[i-1].pi, calls[i-1].text // same path, other config: where a leak would show
 		}
 	}
 	mutateAt := r.Intn(n)
@@ -201,15 +265,23 @@ func runC19(c *harness.Ctx, fc *freshCache) {
 	prevFailed, prevCfg := false, -1
 	interesting := false
 	for i, cl := range calls {
-		want, ok := fc.get(c, cl.pi, cl.ci)
+		var want, got, text string
+		var ok bool
+		if cl.pi < 0 {
+			text = cl.text
+			want, ok = fc.getText(c, text, cl.ci)
+		} else {
+			text = histPaths[cl.pi]
+			want, ok = fc.get(c, cl.pi, cl.ci)
+		}
 		if !ok {
 			return
 		}
-		got := parseOutcome(cl.pi, cl.ci, i == mutateAt)
+		got = parseOutcomeText(text, cl.ci, i == mutateAt)
 		if i == mutateAt && cl.ci != 0 {
 			c.Cover("history:config-mutated")
 		}
-		hist = append(hist, fmt.Sprintf("Parse(%q, cfg%d)", histPaths[cl.pi], cl.ci))
+		hist = append(hist, fmt.Sprintf("Parse(%q, cfg%d)", text, cl.ci))
 		failed := strings.HasPrefix(got, "ERR ")
 		if failed {
 			c.Cover("outcome:error")
@@ -229,7 +301,29 @@ func runC19(c *harness.Ctx, fc *freshCache) {
 		if residue == "" {
 			c.Cover("residue:clean")
 		} else {
+			// not a verdict by itself (harmless residue is legal): amplify - the whole probe set
+			// right now, while the residue is there, against the fresh-process outcomes
 			c.Tally("parser-residue:" + residue)
+			for pi := range histPaths {
+				for _, ci := range []int{0, 1} {
+					w, ok := fc.get(c, pi, ci)
+					if !ok {
+						continue
+					}
+					if g := parseOutcome(pi, ci, false); g != w {
+						c.Violation(fmt.Sprintf("residue-changes-outcome %q after %s", histPaths[pi], hist[len(hist)-1]),
+							"after a call that left residue in the global parser, a later Parse behaves differently from the same call made first in a fresh process",
+							map[string]interface{}{"history": hist, "parser_residue": residue, "next_call": fmt.Sprintf("Parse(%q, cfg%d)", histPaths[pi], ci), "in_history": g, "fresh_process": w})
+						return
+					}
+					if hooks.ParserResidue() == "" {
+						break
+					}
+				}
+				if hooks.ParserResidue() == "" {
+					break // a later call cleaned up: nothing left to amplify
+				}
+			}
 		}
 		if got != want {
 			c.Violation("history-dependent "+strings.Join(hist, " ; "), fmt.Sprintf("call %d of the history behaves differently from the same call made first in a fresh process", i+1),
